@@ -14,7 +14,7 @@ from tools.vlib import Outcome, sx
 from tools.props import c15_gen as G
 
 MANIFEST = {
-    "level_text": "Coq theorems (Properties/C15.v, no axioms) about byte-level Gallina transcriptions (strings = UTF-8 byte lists, every Rust slice = a slice that returns Panic exactly when Rust panics) of every function of the analysis and generation code that slices a str by computed offsets, unwraps or recurses on substrings: for ALL well-formed UTF-8 input parse_type_structure (with all extract_* helpers and parse_two_type_params), extract_type_names, add_types_prefix, parse_rename_all, parse_rename (repaired restart offset), parse_validator_attributes including parse_message_from_content (repaired: char_indices), apply_naming_convention under all eight rules (repaired camelCase call-site guard) and event_name_to_function never panic and terminate with the stated fuel; the former counterexamples are positive theorems on the same witnesses. One refutation remains: compute_variant_name -> apply_to_variant(CamelCase) slices variant[..1] (introduced by the variant-rule repair), proved panic-free on the complement of one narrow class predicate. The models are tied to the code on every run by executing both on the same adversarial strings (exhaustive short strings over an alphabet with 1-4 byte characters, multi-byte characters at every offset of attribute payloads, unbalanced type strings) and comparing value-or-PANIC.",
+    "level_text": "Coq theorems (Properties/C15.v, no axioms) about byte-level Gallina transcriptions (strings = UTF-8 byte lists, every Rust slice = a slice that returns Panic exactly when Rust panics) of every function of the analysis and generation code that slices a str by computed offsets, unwraps or recurses on substrings: for ALL well-formed UTF-8 input parse_type_structure (with all extract_* helpers and parse_two_type_params), extract_type_names, add_types_prefix, parse_rename_all, parse_rename (repaired restart offset), parse_validator_attributes including parse_message_from_content (repaired: char_indices), apply_naming_convention under all eight rules (repaired camelCase call-site guard) and event_name_to_function never panic and terminate with the stated fuel; the former counterexamples are positive theorems on the same witnesses. compute_variant_name (variant-rule repair, CamelCase arm guarded at the call site) returns for every rule and name although the crate's apply_to_variant(CamelCase) slices variant[..1]. No refutation and no class premise is left. The models are tied to the code on every run by executing both on the same adversarial strings (exhaustive short strings over an alphabet with 1-4 byte characters, multi-byte characters at every offset of attribute payloads, unbalanced type strings) and comparing value-or-PANIC.",
     "level_note": "Partial. Proved: panic-freedom and termination of the string-index arithmetic (the mechanism the property names). Not modelled, only searched by the oracle streams (grammar-generated exotic items, /repo and registry sources with truncations/mutations, non-Rust text, each through the real CLI with exit status in {0,1} and through generate_from_config under catch_unwind; isolation of unparsable files compared on generated output modulo timestamp and declaration order): syn, Tera, walkdir, the AST walkers (command/struct/event/channel parsers; their indexing sites are length-guarded, listed in notes/C15.md), the generators, stack exhaustion on pathologically deep nesting. C15_total covers the fuelled string recursions, not the worklists (C07) or graph routines (C20). C15_isolated is checked at run time only, not stated in Coq. char::is_uppercase in the snake/kebab arms of apply_to_variant is exact on ASCII names only (value compared for ASCII names, outcome for all). Numeric parse of min/max is compared through a python transcription of Rust's u64/f64 grammar.",
     "technique": "Rocq/Coq proof over hand-written model + correspondence check (extracted OCaml vs Rust harness) + CLI fuzzing oracle",
     "design_ref": "DESIGN.md section 5 C15, section 2.2",
@@ -36,8 +36,7 @@ TRUSTED = [
 ASSUMPTIONS = ["source files are valid UTF-8 (the property quantifies over UTF-8 files; read_to_string errors otherwise, exit 1)",
                "stack exhaustion inside syn on pathologically deep nesting is outside the model (bounded depths only are exercised)"]
 
-KF_VARIANT = "C15-variant"
-SITE = {KF_VARIANT: "serde-rename-rule"}
+SITE = {}      # no recorded class is left: every panic is a VIOLATION
 
 F64_RE = re.compile(r"^[+-]?(?:(?:\d+\.?\d*|\.\d+)(?:[eE][+-]?\d+)?|inf|infinity|nan)$", re.I)
 F64_NUM = re.compile(r"^[+-]?(?:\d+\.?\d*|\.\d+)(?:[eE][+-]?\d+)?$", re.A)
@@ -213,9 +212,7 @@ def eval_naming(pairs):
         value_modelled = not (c["rule"].startswith("variant:") and ("snake" in c["rule"].lower() or "kebab" in c["rule"].lower())
                               and any(ord(ch) > 127 for ch in c["name"]))
         corr = (ip and tag == "panic") or (not ip and tag == "ok" and (val == impl or not value_modelled))
-        kf = KF_VARIANT if m[1] == "true" else None
-        if kf and ip and SITE[kf] not in impl["PANIC"]:
-            corr = False
+        kf = None
         outs.append(Outcome(case, corr, not ip, kf, {"impl": impl, "model": val if tag == "ok" else tag},
                             nontrivial=nontrivial(c["name"]) or "_" in c["name"]))
     return outs
@@ -243,21 +240,8 @@ def panic_site(text):
 
 
 def classify_failure(files, text):
-    """known-finding id for a failing project case: some inventoried identifier / attribute lies in a
-    recorded class and the panic was raised at that class's call site"""
-    site = panic_site(text)
-    inv = vlib.run_harness("c15-inventory", [{"id": i, "src": src} for i, src in enumerate(files.values())], shards=1, per_case_timeout=60)
-    checks = []
-    for o in inv:
-        if not o.get("parses"):
-            continue
-        checks += [("variant", x[2:] if x.startswith("r#") else x) for x in o.get("camel_variants", [])]
-    if not checks:
-        return None
-    res = vlib.run_runner("c15-kf", [sx([k, t]) for k, t in checks], shards=1)
-    hit = {k for (k, _), r in zip(checks, res) if r == "true"}
-    if "variant" in hit and SITE[KF_VARIANT] in site:
-        return KF_VARIANT
+    """known-finding id for a failing project case. All recorded C15 classes are repaired, so no
+    failure is attributed to a class any more (the driver's inventory stays available for a future class)."""
     return None
 
 
